@@ -902,6 +902,10 @@ fn run_huge_case<A: Algebra>(case_seed: u64, judge: Judge, n: usize, rep: &mut R
     }
 }
 
+type BigHash = Wrapped<HashWord, 24, false>;
+type BigWord = Wrapped<FreeWord, 40, false>;
+type ReentHash = Wrapped<HashWord, 1, true>;
+type ReentAffine = Wrapped<AffineSum, 0, true>;
 type PW = PairAlg<FreeWord, LetterCount>;
 type PV = PairAlg<LetterCount, FreeWord>;
 type PH = PairAlg<HashWord, PairAlg<LetterCount, HashWord>>;
@@ -930,6 +934,10 @@ macro_rules! for_each_algebra {
         $mac!(MaxAddI8Sent, 1);
         $mac!(ProgAdd, 4);
         $mac!(FlipCount, 3);
+        $mac!(BigHash, 2);
+        $mac!(BigWord, 2);
+        $mac!(ReentHash, 2);
+        $mac!(ReentAffine, 1);
         $mac!(P2, 2);
         $mac!(P3, 2);
         $mac!(P4, 2);
